@@ -908,6 +908,91 @@ fn opt_args(a: &mut A) -> (Option<bool>, Option<char>, Option<u32>) {
     (flag, ch, n)
 }
 
+/// A context value of the object's context type that belongs to nobody else (its own world, so
+/// whatever becomes of it is invisible to the run's books).
+pub trait FreshCtx: Sized {
+    fn fresh() -> Self;
+}
+impl FreshCtx for cglue::trait_group::NoContext {
+    fn fresh() -> Self {
+        Default::default()
+    }
+}
+impl FreshCtx for CArc<crate::world::CtxPayload> {
+    fn fresh() -> Self {
+        simcore::alloc::untracked(|| CArc::from(crate::world::CtxPayload { world: crate::world::World::new(), lib: None }))
+    }
+}
+impl FreshCtx for CArc<c_void> {
+    fn fresh() -> Self {
+        cglue::trait_group::Opaquable::into_opaque(<CArc<crate::world::CtxPayload>>::fresh())
+    }
+}
+impl FreshCtx for crate::world::PlainCtx {
+    fn fresh() -> Self {
+        simcore::alloc::untracked(|| crate::world::PlainCtx::new(&crate::world::World::new()))
+    }
+}
+
+/// What safe code may do with the `&mut` it gets for a mutably borrowed wrapped child: move the
+/// wrapper out (`mem::replace`) and drop it. The wrapper owns a context clone of its own, so this
+/// releases that clone and nothing else. The replacement wraps the same child instance with a
+/// context of its own.
+pub trait ReplaceMutChild: Children {
+    fn c_mut_replace(&mut self) -> Option<u64>;
+}
+
+impl ReplaceMutChild for Solo {
+    fn c_mut_replace(&mut self) -> Option<u64> {
+        if crate::plugin::plugin_path().is_some() {
+            return None;
+        }
+        Some(self.c_mut().b_get())
+    }
+}
+
+impl<T, C> ReplaceMutChild for ChildrenBase<'static, T, C>
+where
+    Self: Children<MutChild = BasicBase<'static, &'static mut c_void, C>>,
+    T: core::ops::Deref<Target = c_void>,
+    C: FreshCtx + cglue::trait_group::ContextBounds + 'static,
+{
+    fn c_mut_replace(&mut self) -> Option<u64> {
+        use cglue::trait_group::{CGlueObjMut, GetContainer};
+        // (a child made inside a separately compiled module has that module's type, not ours)
+        if crate::plugin::plugin_path().is_some() {
+            return None;
+        }
+        let slot = self.c_mut();
+        let inst = slot.ccont_mut().cobj_mut().0 as *mut c_void as *mut Solo;
+        let r: BasicBase<'static, &'static mut Solo, C> = From::from((unsafe { &mut *inst }, C::fresh()));
+        let old = core::mem::replace(slot, cglue::trait_group::Opaquable::into_opaque(r));
+        drop(old);
+        Some(slot.b_get())
+    }
+}
+
+pub const CHILDREN_SINGLE: [Meth; 11] = [m("c_owned"), m("c_owned_mut"), m("c_ref"), m("c_mut"), m("c_group"), m("c_group_ref"), m("c_group_mut"), m("c_count"), m("c_nest"), m("c_owned_opt"), Meth { name: "c_mut_replace", logged_as: "c_mut" }];
+
+pub fn call_children_single<O>(rv: &mut Recv<O>, mi: usize, a: &mut A) -> Ret
+where
+    O: ReplaceMutChild + ?Sized,
+    O::Child: IntoDyn<KBasic>,
+    O::RefChild: ReadOnly,
+    O::MutChild: Basic,
+    O::GChild: IntoDyn<KGrpA>,
+    O::GRefChild: ReadOnly,
+    O::GMutChild: Basic,
+{
+    match mi {
+        10 => match need_mut!(rv).c_mut_replace() {
+            Some(v) => Ret::U(v),
+            None => Ret::NoSuchMethod,
+        },
+        _ => call_children(rv, mi, a),
+    }
+}
+
 fn sub<'a>(a: &A<'a>) -> A<'a> {
     A::new(if a.a.len() > 2 { &a.a[2..] } else { &[] })
 }
